@@ -24,7 +24,7 @@ Definition dinit (n : nat) (names : id -> str) : dag :=
 (* l.append(x) unless x is already a member (also: one step of list(dict.fromkeys(...))) *)
 Definition addl (l : list id) (x : id) : list id := if memb x l then l else l ++ [x].
 
-(* dagnode.py:224-226 and 325-327 -- the body of both assignment loops is the same pair of
+(* dagnode.py:224-226 and 327-329 -- the body of both assignment loops is the same pair of
    statements for the edge p -> c:
        if p not in c.__parents:  c.__parents.append(p); p.__children.append(c)
    (the children setter writes the test as `self not in new_child.__parents`).  The two appends
@@ -34,13 +34,13 @@ Definition add_edge (s : dag) (p c : id) : dag :=
   mkdag (dsize s) (upd (parents s) c (parents s c ++ [p]))
         (upd (children s) p (children s p ++ [c])) (dname s).
 
-(* c.__parents.remove(p); p.__children.remove(c)   (233-234, 333-334, 341-342, 625-626;
+(* c.__parents.remove(p); p.__children.remove(c)   (233-234, 335-336, 343-344, 627-628;
    list.remove = first occurrence) *)
 Definition del_edge (s : dag) (p c : id) : dag :=
   mkdag (dsize s) (upd (parents s) c (remove1 p (parents s c)))
         (upd (children s) p (remove1 c (children s p))) (dname s).
 
-(* `ancestors`, dagnode.py:363-386:
+(* `ancestors`, dagnode.py:365-388:
      def _recursive_parent(node): for _node in node.parents: yield from _recursive_parent(_node); yield _node
      list(dict.fromkeys(ancestors))
    recursion depth is bounded by the number of nodes on a well-formed state: fuel = dsize *)
@@ -57,8 +57,8 @@ Record dconfig := { dassertions : bool }.       (* bigtree.globals.ASSERTIONS *)
 Inductive darg := DNode (i : id) | DNone | DJunk.     (* DJunk: a Python object that is no DAGNode *)
 Inductive dfault := DNoFault | DPreFail | DPostFail.  (* user hook that raises                      *)
 (* what is assigned: a list, a tuple, a set (<= 1 element), a dict-values view (iterable, re-iterable,
-   none of the former), an object that is not iterable *)
-Inductive dcont := DList | DTuple | DSet | DView | DNonIter.
+   none of the former), a generator (one-shot iterator), an object that is not iterable *)
+Inductive dcont := DList | DTuple | DSet | DView | DGen | DNonIter.
 
 Definition dfault_eqb (a b : dfault) : bool :=
   match a, b with
@@ -116,7 +116,7 @@ Definition set_parents (cfg : dconfig) (ft : dfault) (s : dag) (c : id)
   end.
 
 (* ------------------------------------------------------------------------------------------ *)
-(* children setter, dagnode.py:307-335, guards 255-296 *)
+(* children setter, dagnode.py:307-338, guards 255-296 *)
 
 (* __check_children_loop (266-296) *)
 Fixpoint check_children_loop (s : dag) (p : id) (args : list darg) (seen : list id) : option exn :=
@@ -130,39 +130,44 @@ Fixpoint check_children_loop (s : dag) (p : id) (args : list darg) (seen : list 
   | _ :: _ => Some TypeError
   end.
 
-(* __check_children_type (255-264): isinstance(new_children, Iterable) *)
-Definition check_children (s : dag) (p : id) (cont : dcont) (args : list darg) : option exn :=
-  match cont with
-  | DNonIter => Some TypeError
-  | _ => check_children_loop s p args []
-  end.
+(* 314-316: `if ASSERTIONS: self.__check_children_type(new_children)` (isinstance Iterable, 255-264)
+   followed by `new_children = list(new_children)`: an object that is not iterable raises
+   TypeError from the check when the checks are on and from list() itself when they are off --
+   in both cases before anything is changed.  Every iterable (a one-shot generator included) is
+   materialised once here, so the loop check, the assignment loop and the rollback all see the
+   same list. *)
+Definition materialise (cont : dcont) : option exn :=
+  match cont with DNonIter => Some TypeError | _ => None end.
 
-(* try-block 324-327 *)
+(* try-block 326-329 *)
 Definition assign_children (s : dag) (p : id) (news : list id) : dag :=
   fold_left (fun st x => add_edge st p x) news s.
 
-(* except-block 331-334; s0 = the state when `current_children` was copied (318) *)
+(* except-block 333-336; s0 = the state when `current_children` was copied (320) *)
 Definition children_rollback (s0 s : dag) (p : id) (news : list id) : dag :=
   fold_left (fun st x => if memb x (children s0 p) then st else del_edge st p x) news s.
 
 Definition set_children (cfg : dconfig) (ft : dfault) (s : dag) (p : id)
            (cont : dcont) (args : list darg) : dag * outcome :=
-  match check_children s p cont args with
+  match materialise cont with
+  | Some e => (s, Err e)                                       (* 314-316, either setting of the switch *)
+  | None =>
+  match check_children_loop s p args [] with                   (* 317-318 `if ASSERTIONS:` *)
   | Some e => (s, Err (if dassertions cfg then e else Unmodelled))
   | None =>
     let news := ids_of args in
-    if dfault_eqb ft DPreFail then (s, Err HookRaw) else       (* 321: outside the try *)
+    if dfault_eqb ft DPreFail then (s, Err HookRaw) else       (* 323: outside the try *)
     let s' := assign_children s p news in
-    if dfault_eqb ft DPostFail then (children_rollback s s' p news, Err TreeError)   (* 328-335 *)
+    if dfault_eqb ft DPostFail then (children_rollback s s' p news, Err TreeError)   (* 330-337 *)
     else (s', Ok)
-  end.
+  end end.
 
 (* ------------------------------------------------------------------------------------------ *)
-(* children deleter, dagnode.py:337-342: for child in self.children (a tuple copy): remove both *)
+(* children deleter, dagnode.py:339-344: for child in self.children (a tuple copy): remove both *)
 Definition del_children (s : dag) (p : id) : dag :=
   fold_left (fun st c => del_edge st p c) (children s p) s.
 
-(* __delitem__, dagnode.py:615-626, with search.py find_child_by_name -> find_children(max_count=1) *)
+(* __delitem__, dagnode.py:617-628, with search.py find_child_by_name -> find_children(max_count=1) *)
 Definition del_item (s : dag) (p : id) (nm : str) : dag * outcome :=
   match filter (fun k => str_eqb (dname s k) nm) (children s p) with
   | [] => (s, Ok)
@@ -222,7 +227,7 @@ Definition dstep (cfg : dconfig) (s : dag) (o : dop) : dag * outcome :=
   | SetKids p cont args ft => set_children cfg ft s p cont args
   | DelKids p => (del_children s p, Ok)
   | DelKid p nm => del_item s p nm
-  | DRShift p c ft | DLShift c p ft => set_parents cfg ft s c DList [DNode p]   (* 641-655 *)
+  | DRShift p c ft | DLShift c p ft => set_parents cfg ft s c DList [DNode p]   (* 643-657 *)
   | DNew nm pa ca ftp ftc => construct cfg s nm pa ca ftp ftc
   end.
 
